@@ -410,8 +410,9 @@ class GraphExporter:
                 # (identified by the kernel and the result's name) of all bound
                 # arguments, in the order of their names
                 knl = cont.translation_unit[cont.entrypoint]
+                # (not by the kernel's NAME: preprocessing renames a callee whose name
+                # collides with another kernel's, combine -> combine_0)
                 ident = json.dumps([
-                    knl.name,
                     sorted((a.name, str(getattr(a, "shape", None)), str(a.dtype),
                             bool(getattr(a, "is_output", False))) for a in knl.args),
                     sorted(str(i.assignees) + "=" + str(i.expression)
